@@ -247,7 +247,7 @@ def run_A4(ctx, case):
     m.gpr[7] = Ptr('state', 0); m.gpr[6] = Ptr('key', 0); m.gpr[4] = Ptr('stack', 32)
     try:
         r = m.run(a - base, max_steps=200)
-    except (x86sem.Undecodable, x86sem.Fault, OOB) as e:
+    except (x86sem.Fault, OOB) as e:      # Undecodable = limitation of the x86 model: propagates, the job is INCONCLUSIVE (never a violation)
         q.n += 1; q.sat += 1; q.failed.append(('soft_aes_%s routine does not execute: %s' % (case, e), {})); return result('A4', case, q, paths=1)
     ok = r[0] == 'ret' and isinstance(r[1], Ptr) and r[1].obj == 'caller'; q.n += 1; q.unsat += ok; q.sat += (not ok)
     if not ok: q.failed.append(('routine does not return to its caller', {}))
